@@ -568,4 +568,112 @@ theorem trace_chain (n : Nat) (s : σ) (d : Bytes) (hn : d.length = n) :
       · simp only [List.map_cons, List.flatten_cons, h3]
 end loop
 
+theorem extract_zeros (mask : MaskFn) (env : Env) (isServer : Bool) (guessed : Bytes) (ts : Nat) (n : Nat) :
+    extract mask env isServer guessed ts (List.replicate (n + 1) 0) = { pkts := [], rest := [] } := by
+  unfold extract
+  rw [List.replicate_succ]
+  simp only
+  rw [← List.replicate_succ, if_pos (beNat_replicate_zero _)]
+
+theorem protect_long_ne_nil (p : Long) (m rest : Bytes) : p.protect m ++ rest ≠ [] := by
+  simp [Long.protect, applyMask]
+
+theorem protect_short_ne_nil (p : Short) (m : Bytes) : p.protect m ≠ [] := by
+  simp [Short.protect, applyMask]
+
+section
+variable {σ : Type} (mask : MaskFn) (envOf : σ → Env) (handle : σ → List Pkt → σ)
+  (isServer : Bool) (guessed : Bytes) (ts : Nat)
+
+theorem loop_tail (s : σ) (tail : Tail) (ht : TailOK mask (envOf s) isServer guessed tail) :
+    (dissectLoop mask envOf handle isServer guessed ts s tail.bytes).2 = tail.pkts isServer ts := by
+  cases tail with
+  | none => simp [Tail.bytes, Tail.pkts, dissectLoop_nil]
+  | zeros n =>
+    cases n with
+    | zero => simp [Tail.bytes, Tail.pkts, dissectLoop_nil]
+    | succ n =>
+      simp only [Tail.bytes, Tail.pkts]
+      rw [dissectLoop_cons _ _ _ _ _ _ _ _ (by simp [List.replicate_succ])]
+      simp only [extract_zeros, dissectLoop_nil, List.append_nil]
+  | short p m =>
+    obtain ⟨hwf, h20, hm5, hg, key, hk, hm⟩ := ht
+    subst hg
+    simp only [Tail.bytes, Tail.pkts]
+    rw [dissectLoop_cons _ _ _ _ _ _ _ _ (protect_short_ne_nil p m)]
+    simp only [extract_protect_short mask (envOf s) isServer ts p hwf h20 key m hk hm hm5, dissectLoop_nil,
+      List.append_nil]
+
+theorem loop_coalesced (longs : List (Long × Bytes)) (tail : Tail) (s : σ)
+    (hl : LongsOK mask envOf handle isServer ts s longs)
+    (ht : TailOK mask (envOf (afterLongs handle isServer ts s longs)) isServer guessed tail) :
+    (dissectLoop mask envOf handle isServer guessed ts s
+        ((longs.map (fun x => x.1.protect x.2)).flatten ++ tail.bytes)).2 =
+      longs.map (fun x => x.1.toPkt isServer ts) ++ tail.pkts isServer ts := by
+  induction longs generalizing s with
+  | nil => simpa [afterLongs] using loop_tail mask envOf handle isServer guessed ts s tail ht
+  | cons x xs ih =>
+    obtain ⟨⟨hwf, hver, hscid, h20, hm5, key, hk, hm⟩, hrest⟩ := hl
+    simp only [List.map_cons, List.flatten_cons, List.append_assoc, List.cons_append]
+    rw [dissectLoop_cons _ _ _ _ _ _ _ _ (protect_long_ne_nil _ _ _)]
+    simp only [extract_protect_long mask (envOf s) isServer guessed ts x.1 hwf hver hscid h20 key x.2 hk hm hm5,
+      List.cons_append, List.nil_append]
+    congr 1
+    exact ih _ hrest ht
+end
+
+theorem decodeVarint_single_big (x : UInt8) (h : 64 ≤ x.toNat) : decodeVarint [x] = none := by
+  have hl : 2 ≤ varintLen x := by
+    unfold varintLen
+    rw [Nat.shiftRight_eq_div_pow, Nat.shiftLeft_eq, Nat.one_mul]
+    have : 1 ≤ x.toNat / 2 ^ 6 := by omega
+    calc 2 = 2 ^ 1 := rfl
+      _ ≤ 2 ^ (x.toNat / 2 ^ 6) := Nat.pow_le_pow_right (by omega) this
+  simp only [decodeVarint, List.length_nil]
+  rw [if_pos (by omega)]
+
+/-- CODE LIMIT: `scid_len = decode_variable_length_int(<the one SCID Length byte>)` — a Source Connection ID of 64
+    bytes or more (encodable: the field has 8 bits; not allowed in QUIC v1) makes the dissector read
+    `variable_integer[1]` of a one-byte string: IndexError, the whole datagram is dropped -/
+theorem extract_scid_too_long (mask : MaskFn) (env : Env) (isServer : Bool) (guessed : Bytes) (ts : Nat) (p : Long)
+    (hwf : p.wf) (h64 : 64 ≤ p.scid.length) (m rest : Bytes) :
+    extract mask env isServer guessed ts (p.protect m ++ rest) = { pkts := [], rest := [], err := some .index } := by
+  have hL : isLong (p.first ^^^ (m.headD 0 &&& 0x0f)) = true := by
+    rw [isLong_mask _ _ _ (by decide)]; exact (long_first p hwf).1
+  obtain ⟨hr, hv, hdl, hsl, h1, h4, hft, hfl⟩ := hwf
+  generalize hT : p.tokenPart ++ (p.lengthField ++ (xorBytes p.pn ((m.drop 1).take p.pn.length) ++ (p.payload ++ rest))) = T
+  generalize hd : p.protect m ++ rest = d
+  have hd' : d = (p.first ^^^ (m.headD 0 &&& 0x0f)) :: (p.version ++ (UInt8.ofNat p.dcid.length :: (p.dcid ++
+      (UInt8.ofNat p.scid.length :: (p.scid ++ T))))) := by
+    rw [← hd, ← hT]; simp [Long.protect, applyMask, Long.mid]
+  have e2 : d = ((p.first ^^^ (m.headD 0 &&& 0x0f)) :: p.version) ++ ([UInt8.ofNat p.dcid.length] ++ (p.dcid ++ (UInt8.ofNat p.scid.length :: (p.scid ++ T)))) := by
+    rw [hd']; simp
+  have e3 : d = ((p.first ^^^ (m.headD 0 &&& 0x0f)) :: p.version ++ [UInt8.ofNat p.dcid.length]) ++ (p.dcid ++ (UInt8.ofNat p.scid.length :: (p.scid ++ T))) := by
+    rw [hd']; simp
+  have e4 : d = ((p.first ^^^ (m.headD 0 &&& 0x0f)) :: p.version ++ [UInt8.ofNat p.dcid.length] ++ p.dcid) ++ ([UInt8.ofNat p.scid.length] ++ (p.scid ++ T)) := by
+    rw [hd']; simp
+  have n1 : need d 6 = .ok () := need_split d _ _ _ _ e2 (by simp [hv])
+  have g5 : d[5]? = some (UInt8.ofNat p.dcid.length) := by
+    rw [e2, List.getElem?_append_right (by simp [hv])]; simp [hv]
+  have n2 : need d (6 + p.dcid.length) = .ok () := need_split d _ _ _ _ e3 (by simp [hv])
+  have n3 : need d (7 + p.dcid.length) = .ok () := need_split d _ _ _ _ e4 (by simp [hv]; omega)
+  have s3 := slice_split d _ [UInt8.ofNat p.scid.length] _ (6 + p.dcid.length) (7 + p.dcid.length) e4
+      (by simp [hv]; omega) (by simp; omega)
+  have hto := ofNat_toNat _ hdl
+  have dv : decodeVarint [UInt8.ofNat p.scid.length] = none :=
+    decodeVarint_single_big _ (by rw [ofNat_toNat _ hsl]; exact h64)
+  unfold extract
+  rw [hd']
+  simp only [beNat_cons_ne_zero _ _ (isLong_ne_zero _ hL), if_false, hL, if_true]
+  rw [← hd']
+  unfold extractLong
+  simp only [n1, g5, ofOpt, bind, Except.bind, hto, n2, n3, s3, dv]
+
+theorem aad_long (p : Long) (fromServer : Bool) (ts : Nat) : aad (p.toPkt fromServer ts) = some p.header := by
+  cases hty : p.ty <;>
+    simp [aad, Long.toPkt, hty, LType.ptype, Long.header, Long.mid, Long.tokenPart]
+
+theorem aad_short (p : Short) (fromServer : Bool) (ts : Nat) : aad (p.toPkt fromServer ts) = some p.header := by
+  simp [aad, Short.toPkt, Short.header]
+
 end TLX.Lemmas.QuicDissect
